@@ -23,11 +23,12 @@ import (
 )
 
 type witness struct {
-	Family string   `json:"family"`
-	Pre    []string `json:"pre_history"`
-	K      int      `json:"pause_before_op"`
-	Op     string   `json:"op"`
-	Plan   string   `json:"pause_point,omitempty"` // i:op path (run directory as @)
+	Family  string   `json:"family"`
+	Pre     []string `json:"pre_history"`
+	K       int      `json:"pause_before_op"`
+	Op      string   `json:"op"`
+	Plan    string   `json:"pause_point,omitempty"` // i:op path (run directory as @)
+	BBuilds string   `json:"b_builds,omitempty"`    // the command line of invocation B if it differs from A's
 }
 
 type proc struct {
@@ -99,11 +100,15 @@ func main() {
 		fam  hist.Family
 		pre  []string // edits (with complete builds) before the concurrent builds; last edit is applied without a build
 		step int
+		famB hist.Family // what invocation B is asked to build, if not the same as A
 	}
 	chain, dirs := hist.Chain{Threads: "2"}, hist.Dirs{Threads: "2"}
-	scs := []scenario{{chain, []string{"init"}, 1}, {dirs, []string{"init"}, 2}}
+	// two filegroups exporting the same generated files: A builds one, B the other (different per-target locks), and both build both
+	sharedAB := scenario{hist.SharedFG{Only: "a"}, []string{"init"}, 1, hist.SharedFG{Only: "b"}}
+	sharedBoth := scenario{hist.SharedFG{}, []string{"init"}, 1, nil}
+	scs := []scenario{{chain, []string{"init"}, 1, nil}, {dirs, []string{"init"}, 2, nil}, sharedAB}
 	if !r.Quick() {
-		scs = []scenario{{chain, []string{"init"}, 1}, {dirs, []string{"init"}, 1}, {chain, []string{"init", "a_txt=y"}, 1}, {dirs, []string{"init", "d_txt=y"}, 1}, {dirs, []string{"init", "g_binary=True"}, 1}}
+		scs = []scenario{{chain, []string{"init"}, 1, nil}, {dirs, []string{"init"}, 1, nil}, {chain, []string{"init", "a_txt=y"}, 1, nil}, {dirs, []string{"init", "d_txt=y"}, 1, nil}, {dirs, []string{"init", "g_binary=True"}, 1, nil}, sharedAB, sharedBoth}
 	}
 	if r.Replay != "" {
 		var w witness
@@ -112,7 +117,13 @@ func main() {
 		if w.Family == "dirs" {
 			f = dirs
 		}
-		scs = []scenario{{f, w.Pre, 1}}
+		scs = []scenario{{f, w.Pre, 1, nil}}
+		if w.Family == "sharedfg" {
+			scs = []scenario{sharedAB}
+			if w.BBuilds == "" {
+				scs = []scenario{sharedBoth}
+			}
+		}
 	}
 	var execs, states, bBlocked, bFinished, noVerdict int64
 	var samples lib.Samples
@@ -139,6 +150,10 @@ func main() {
 		}
 		clean := e.CleanObs(src, noCache)
 		args, _ := sc.fam.Args(src)
+		argsB := args
+		if sc.famB != nil {
+			argsB, _ = sc.famB.Args(src)
+		}
 		// dry run: number of operations of a lone build from this state
 		dry := filepath.Join(e.Root, "dry")
 		hist.CopyTree(pre, dry)
@@ -197,8 +212,11 @@ func main() {
 					}
 					opb, _ := os.ReadFile(filepath.Join(pd, "reached"))
 					wit := witness{Family: sc.fam.Name(), Pre: sc.pre, K: k, Plan: keys[k], Op: strings.TrimSpace(string(opb))}
+					if sc.famB != nil {
+						wit.BBuilds = strings.Join(argsB, " ")
+					}
 					samples.Add(func() any { return wit })
-					b := start(plzVos, dir, args, nil)
+					b := start(plzVos, dir, argsB, nil)
 					for !b.finished() && time.Now().Before(deadline) {
 						if blockedOnFlock(b.cmd.Process.Pid) {
 							atomic.AddInt64(&bBlocked, 1)
